@@ -425,14 +425,29 @@ pub fn run(tier: Tier, totals: &mut Totals) {
     totals.extra.insert("search".into(), json!(levels));
     scale(tier, totals);
     prefix_family(totals);
+    padded_names(totals);
 }
 
 /// Names that are prefixes of one another: every subset of nine look-alike names defined, then one
 /// prefix operation (clear_scope / unset_all_vars --prefix with four arguments): exactly the names
 /// the operation speaks of are gone.
+const PREFIX_NAMES: [&str; 12] = ["p::a", "p::b::c", "p2::a", "pp::a", "p", "px", "q::p::a", "p:a", "P::a", "p::::a", "p::", " p::a"];
+
 fn prefix_family(totals: &mut Totals) {
-    let names = ["p::a", "p::b::c", "p2::a", "pp::a", "p", "px", "q::p::a", "p:a", "P::a"];
-    let ops: [(&str, Vec<&str>); 8] = [
+    let names = PREFIX_NAMES;
+    let ops: [(&str, Vec<&str>); 18] = [
+        // a scope name is a name: one that ends in the separator, has blanks around it or differs in case
+        // is another scope
+        ("clear_scope", vec!["p::"]),
+        ("clear_scope", vec!["p::b::"]),
+        ("clear_scope", vec!["p:"]),
+        ("clear_scope", vec!["P"]),
+        ("clear_scope", vec![" p"]),
+        ("clear_scope", vec!["p "]),
+        ("clear_scope", vec!["::p"]),
+        ("unset_all_vars", vec!["--prefix", " p"]),
+        ("unset_all_vars", vec!["--prefix", "P"]),
+        ("unset_all_vars", vec!["--prefix", "p::::"]),
         ("clear_scope", vec!["p"]),
         ("clear_scope", vec!["p2"]),
         ("clear_scope", vec!["q"]),
@@ -482,6 +497,52 @@ fn prefix_family(totals: &mut Totals) {
     }
 }
 
+/// A variable name is taken as it is given: with blanks (or other white space) around it, it is another
+/// name than without.
+fn padded_names(totals: &mut Totals) {
+    let names = [" a", "a ", "\ta", "a\u{a0}", "\u{2003}a", " a::b ", " ", "A", "a\n"];
+    for name in names {
+        for op in ["set_by_name", "get_by_name", "is_defined", "unset", "set_by_name-remove"] {
+            totals.evals += 1;
+            totals.transitions += 1;
+            totals.traces += 1;
+            totals.nontrivial += 1;
+            let mut s = Session::new();
+            let mut model: BTreeMap<String, String> = BTreeMap::new();
+            for (k, v) in [("a", "A"), ("a::b", "B"), ("other", "O")] {
+                s.variables.insert(k.to_string(), v.to_string());
+                model.insert(k.to_string(), v.to_string());
+            }
+            let (r, exp): (Out, Option<Out>) = match op {
+                "set_by_name" => {
+                    model.insert(name.to_string(), "new".to_string());
+                    (s.call("set_by_name", &[name, "new"]), Some(Out::Val(Some("new".to_string()))))
+                }
+                "set_by_name-remove" => {
+                    model.remove(name);
+                    (s.call("set_by_name", &[name]), Some(Out::Val(None)))
+                }
+                "get_by_name" => (s.call("get_by_name", &[name]), Some(Out::Val(model.get(name).cloned()))),
+                "is_defined" => (s.call("is_defined", &[name]), Some(Out::Val(Some(model.contains_key(name).to_string())))),
+                _ => {
+                    model.remove(name);
+                    (s.call("unset", &[name]), None)
+                }
+            };
+            let got = sorted_vars(&s.variables);
+            if got != model || exp.as_ref().map(|e| *e != r).unwrap_or(false) || matches!(r, Out::Panic(_)) {
+                let sig = format!("padded-name:{}", op);
+                let what = format!("{} {:?} with the variables a, a::b, other defined: result {:?} (expected {:?}), variables afterwards {:?}, model {:?}", op, name, r, exp, got, model);
+                let e = totals.failures.entry(sig.clone()).or_insert((0, vec![]));
+                e.0 += 1;
+                if e.1.len() < 2 {
+                    e.1.push(json!({"idx": 0, "sig": sig, "what": what, "replay": {"kind": "padded-name", "name": name, "op": op}}));
+                }
+            }
+        }
+    }
+}
+
 /// Depth and size far beyond the search bound: a scope stack hundreds of maps deep and a map with
 /// hundreds of variables, as scripts whose results are computed here.
 fn scale(tier: Tier, totals: &mut Totals) {
@@ -524,7 +585,32 @@ pub fn replay(case: &Value) -> Result<String, String> {
         return r;
     }
     if case["kind"].as_str() == Some("prefix") {
-        return Ok("re-run the check: the case is rebuilt from mask, command and arguments by the generator".to_string());
+        let mask = case["mask"].as_u64().unwrap_or(0) as u32;
+        let cmd = case["command"].as_str().unwrap_or("");
+        let args: Vec<String> = case["args"].as_array().map(|a| a.iter().map(|x| x.as_str().unwrap_or("").to_string()).collect()).unwrap_or_default();
+        let mut s = Session::new();
+        for (i, n) in PREFIX_NAMES.iter().enumerate() {
+            if mask & (1 << i) != 0 {
+                s.variables.insert(n.to_string(), format!("v{}", i));
+            }
+        }
+        let r = s.call(cmd, &args.iter().map(|x| x.as_str()).collect::<Vec<_>>());
+        return Ok(format!("result {:?}\nvariables afterwards {:?}", r, sorted_vars(&s.variables)));
+    }
+    if case["kind"].as_str() == Some("padded-name") {
+        let name = case["name"].as_str().unwrap_or("");
+        let op = case["op"].as_str().unwrap_or("");
+        let mut s = Session::new();
+        for (k, v) in [("a", "A"), ("a::b", "B"), ("other", "O")] {
+            s.variables.insert(k.to_string(), v.to_string());
+        }
+        let r = match op {
+            "set_by_name" => s.call("set_by_name", &[name, "new"]),
+            "set_by_name-remove" => s.call("set_by_name", &[name]),
+            "unset" => s.call("unset", &[name]),
+            o => s.call(o, &[name]),
+        };
+        return Ok(format!("result {:?}\nvariables afterwards {:?}", r, sorted_vars(&s.variables)));
     }
     // histories are recorded as debug strings of ops; re-run them through a fresh system by name
     let hist: Vec<String> = case["history"]
@@ -568,7 +654,7 @@ pub fn replay(case: &Value) -> Result<String, String> {
     Err("history uses operations outside the alphabet".into())
 }
 
-pub const RULE: &str = "explicit-state breadth-first search from the empty context: every operation of the alphabet (set via a one-line script; set_by_name with/without value, get_by_name, is_defined, unset with 1-2 names, get_all_var_names, unset_all_vars plain and --prefix, clear_scope, scope_push_stack / scope_pop_stack without --copy and with every --copy list of 0..2 names) is applied to every reachable state; pushes are disabled at the stack-depth bound so the space is finite and searched to a fixpoint. Each transition runs the real command, compares its output, the complete variable map, the saved maps inside the scope stack and the handle table with the model (map + stack of maps). States are de-duplicated on the implementation's own state (variables and the whole state map). evaluations = transitions; distinct_nontrivial = distinct states. Prefix family: every subset of nine look-alike names {p::a, p::b::c, p2::a, pp::a, p, px, q::p::a, p:a, P::a} x clear_scope p / p2 / q / p::b and unset_all_vars --prefix p / p:: / p2 / q::p: exactly the names the operation speaks of are removed. Scale cases (scripts, results computed in Rust): a scope stack 10/70/300 (thorough 1000, 3000) levels deep pushed and popped with --copy, a pop on the emptied stack; 10..300 variables written and read by name and removed by prefix";
+pub const RULE: &str = "explicit-state breadth-first search from the empty context: every operation of the alphabet (set via a one-line script; set_by_name with/without value, get_by_name, is_defined, unset with 1-2 names, get_all_var_names, unset_all_vars plain and --prefix, clear_scope, scope_push_stack / scope_pop_stack without --copy and with every --copy list of 0..2 names) is applied to every reachable state; pushes are disabled at the stack-depth bound so the space is finite and searched to a fixpoint. Each transition runs the real command, compares its output, the complete variable map, the saved maps inside the scope stack and the handle table with the model (map + stack of maps). States are de-duplicated on the implementation's own state (variables and the whole state map). evaluations = transitions; distinct_nontrivial = distinct states. Prefix family: every subset of nine look-alike names {p::a, p::b::c, p2::a, pp::a, p, px, q::p::a, p:a, P::a} x clear_scope p / p2 / q / p::b and unset_all_vars --prefix p / p:: / p2 / q::p: exactly the names the operation speaks of are removed. Scale cases (scripts, results computed in Rust): a scope stack 10/70/300 (thorough 1000, 3000) levels deep pushed and popped with --copy, a pop on the emptied stack; 10..300 variables written and read by name and removed by prefix Prefix family: 12 look-alike names (incl. p::::a, p::, ' p::a') x 18 operations (clear_scope and unset_all_vars --prefix with names ending in the separator, with blanks, in another case): exactly the names starting with NAME:: (the prefix) are removed. Padded names: 9 names with white space around them through set_by_name / get_by_name / is_defined / unset: another name than without";
 pub const ASSUMPTIONS: &[&str] = &["names from {a,b,p::a} (thorough also {a,ab,p::a,p}), values from {1, empty, 'x y'}", "for a name that is undefined when copied on pop the model follows the implementation between 'restored' and 'undefined'", "operations other than `name = set value` are run through run_instruction (outputs observed directly, no output variable)"];
 pub const EXHAUSTIVE: bool = true;
 pub const WALL_CAP_S: (u64, u64) = (50, 1500);
